@@ -91,6 +91,11 @@ InvColumnsP  == ColumnsCarryRecipe(CodeColumnsP)
 InvColumnsIV == \A l \in 1..Len(FreeS) : \A j \in 1..NObs : VarsIV(LD)[CodeColIV(l, j)] = GradSymIV(l, j)
 NegSortedColumns == ColumnsCarryRecipe(SortedColumnsP)        \* must FAIL for some wiring
 
+(* cost / residual / costIV / residualIV take an option that switches the observation weights off: the formula is then the
+   class's formula with every weight replaced by 1 (the registers behave as for any other call, so the option is not a
+   dimension of the state space; the replayer draws it per call and uses this definition for the expected value) *)
+EffectiveWeight(w, applyWeighting) == IF applyWeighting THEN w ELSE 1
+
 (* the recipes are injective: no two (free variable, observed state) pairs share a symbol *)
 InvRecipeInjective ==
     /\ \A k1, k2 \in 1..Len(FreeP) : \A j1, j2 \in 1..NObs :
